@@ -1,5 +1,6 @@
 import VaxisModel.Gen.ImageCtors
 import VaxisModel.Gen.Writers
+import VaxisModel.Model.ImageProto
 
 /-!
 # C07 — who can create a kitty / sixel image object, and what its buffer holds
@@ -57,5 +58,23 @@ theorem image_writers_are_methods_of_the_constructed_types :
       ["KittyImage.Draw", "KittyImage.Destroy", "Sixel.Draw"].contains w.fn) = true ∧
     (literals.map (·.2)) = ["KittyImage", "Sixel"] := by
   decide +kernel
+
+open VaxisModel.Model.ImageProto in
+/-- **`NewImage` is interpreted from the source**: for each of the five protocol constants, running
+the regenerated switch of `NewImage` (`Gen.Writers.newImage`) gives the class of the hand model that
+the run-time image lines of the C07caps driver predict with. -/
+theorem new_image_interpreted (p : Proto) : newImageGen p = some (newImage p) := by
+  cases p <;> decide +kernel
+
+open VaxisModel.Model.ImageProto in
+/-- **Pixel protocols only when advertised** (over the model of the start-up's `graphicsProtocol`
+and the interpreted `NewImage`): a kitty image is handed out only if the kitty graphics reply
+arrived, a sixel image only if sixel was advertised, and without a known pixel size or without
+either advertisement the image is the half-block fallback. -/
+theorem new_image_class_gated (sixelAdv kittyAdv pixKnown : Bool) :
+    (newImageGen (detected sixelAdv kittyAdv pixKnown) = some .kitty → kittyAdv = true ∧ pixKnown = true) ∧
+    (newImageGen (detected sixelAdv kittyAdv pixKnown) = some .sixel → sixelAdv = true ∧ kittyAdv = false ∧ pixKnown = true) ∧
+    ((sixelAdv = false ∧ kittyAdv = false) ∨ pixKnown = false → newImageGen (detected sixelAdv kittyAdv pixKnown) = some .halfBlock) := by
+  cases sixelAdv <;> cases kittyAdv <;> cases pixKnown <;> decide +kernel
 
 end VaxisModel.Props.C07Image
